@@ -445,6 +445,10 @@ def h_conditions(P, kinds, shape, hibernation=False):
     wts = [2, 0, 3][: len(tree.levels)]
     weighted = sum(wts[lvl] * d.n_evaluations for lvl, d in tree.all_demes)
     P.oblige("gsc.FitnessEvalLimitReached.weights", iff(sc.FitnessEvalLimitReached(n, weights=list(wts))(tree), weighted >= n))
+    # fractional weights: the documented quantity is the exact weighted sum (no per-deme truncation)
+    fw = [1, 0.3, 0.7][: len(tree.levels)]
+    fweighted = sum(fw[lvl] * d.n_evaluations for lvl, d in tree.all_demes)
+    P.oblige("gsc.FitnessEvalLimitReached.fractional_weights", iff(sc.FitnessEvalLimitReached(n, weights=list(fw))(tree), fweighted >= n))
     m = P.int("mlimit", 0, 6)
     P.oblige("usc.MetaepochLimit.tree", iff(sc.MetaepochLimit(m)(tree), tree.metaepoch_count >= m))
     for _, d in tree.all_demes:
